@@ -66,7 +66,10 @@ def config_for(cmd: str, variant: str) -> dict:
     return cfg
 
 
-VARIANTS = ("base", "others_disabled", "others_extreme", "others_ignore")
+# twin_neighbour: base settings, and a file with the SAME TEXT under another language's extension is linted first in the
+# same run (a file is analysed according to ITS extension, whatever else is in the run)
+VARIANTS = ("base", "others_disabled", "others_extreme", "others_ignore", "twin_neighbour")
+TWIN_EXT = {"ts": "rs", "tsx": "rs", "js": "rs", "jsx": "rs", "rs": "ts"}
 
 
 def fname(stem: str, ext: str) -> str:
@@ -90,18 +93,22 @@ def job(j: dict) -> dict:
     # extensionless file with python text but no shebang (unknown type) listed last
     (root / "aaa_tool").write_text("#!/usr/bin/env python3\n" + PY)
     (root / "zzz_notes").write_text(PY)
-    (root / ".thailint.yaml").write_text(yaml.safe_dump(config_for(cmd, variant)))
-    r = drive.cli_json([cmd, "."], cwd=root)
+    if variant == "twin_neighbour":
+        (root / ("aaa_twin." + TWIN_EXT[j["ext"].lower().split(".")[-1]])).write_text(sb + CONTENT[j["content"]])
+    (root / ".thailint.yaml").write_text(yaml.safe_dump(config_for(cmd, "base" if variant == "twin_neighbour" else variant)))
+    # (the twin is named first so that it is analysed before the probe files whatever the directory order is)
+    twin = [n for n in os.listdir(root) if n.startswith("aaa_twin.")]
+    r = drive.cli_json([cmd] + twin + ["."], cwd=root)
     bag = None
     if r["violations"] is not None:
         bag = sorted(canon([v["rule_id"], v["file_path"].split(".")[0].split("/")[-1], v["line"], v["column"],
                             v["message"].replace(names[0], "ALPHA").replace(names[1], "BETA")
                             .replace(str(root) + "/", "")])
-                     for v in r["violations"])
+                     for v in r["violations"] if not os.path.basename(v["file_path"]).startswith("aaa_twin."))
 
     def kind(v):
         b = os.path.basename(v["file_path"])
-        return "tool" if b == "aaa_tool" else "notes" if b == "zzz_notes" else "probe"
+        return "tool" if b == "aaa_tool" else "notes" if b == "zzz_notes" else "twin" if b.startswith("aaa_twin.") else "probe"
     return {"exit": r["exit"], "bag": bag, "stderr": (r["stderr"] or "")[-200:],
             "rules": sorted({v["rule_id"] for v in (r["violations"] or [])}),
             "found": sorted({(kind(v), v["rule_id"].split(".")[0]) for v in (r["violations"] or [])})}
@@ -137,7 +144,11 @@ def run(chk) -> None:
     runs = []
     for j in jobs:
         for variant in VARIANTS:
+            if variant == "twin_neighbour" and j["ext"].lower().split(".")[-1] not in TWIN_EXT:
+                continue        # only the tree-sitter languages have a counterpart to be confused with
             for cmd in j["cmds"]:
+                if variant == "twin_neighbour" and cmd in ("dry", "stringly-typed"):
+                    continue    # cross-file rules legitimately see the twin's text as further evidence
                 runs.append(dict(j, variant=variant, cmd=cmd, root=str(scratch_root() / f"c15-{len(runs)}")))
     log(f"C15: {len(jobs)} probe files, {len(runs)} invocations (one fresh process each)")
     res = pool.run_jobs(job, runs, nproc=NCPU, timeout=300)
@@ -156,9 +167,9 @@ def run(chk) -> None:
             same_canon = True
             if ext in lower and (lower[ext], sb, content) in by and f"base:{cmd}" in by[(lower[ext], sb, content)][1]:
                 same_canon = by[(lower[ext], sb, content)][1][f"base:{cmd}"]["bag"] == o["bag"]
-            same_other = all(val[f"{v}:{cmd}"]["bag"] == o["bag"] and val[f"{v}:{cmd}"]["exit"] == o["exit"]
-                             for v in VARIANTS[1:])
-            found = sorted({tuple(f) for v in VARIANTS
+            same_other = all(val[f"{v}:{cmd}"]["bag"] == o["bag"] and (v == "twin_neighbour" or val[f"{v}:{cmd}"]["exit"] == o["exit"])
+                             for v in VARIANTS[1:] if f"{v}:{cmd}" in val)
+            found = sorted({tuple(f) for v in VARIANTS if f"{v}:{cmd}" in val
                             for f in val[f"{v}:{cmd}"]["found"]})
             linters = sorted({l for k_, l in found if k_ == "probe"})
             records.append({"ext": ext, "shebang": sb, "cmd": cmd, "linters": linters,
